@@ -171,9 +171,9 @@ def _resort(x, S):
 
 
 def classify(j, diff, a, e):
-    # KF-01 / KF-32 seen through the default schema: the qualifier of a relation the analyzer lost falls through to Table(qualifier),
+    # KF-32 seen through the default schema: the qualifier of a relation the analyzer lost falls through to Table(qualifier),
     # which gets the default schema on one side and the placeholder on the other (the text says nothing about that qualifier's schema)
-    for tag, kfid in (("from.mixed_comma_join", "KF-01"), ("where.in_subquery_comma_join", "KF-32"), ("join.parenthesised_group_first_aliased", "KF-36")):
+    for tag, kfid in (("where.in_subquery_comma_join", "KF-32"),):
         if tag in j.get("tags", []):
             if all(_resort(a[f], j["S"]) == _resort(e[f], j["S"]) for f in diff):
                 return kfid
